@@ -91,7 +91,8 @@ def run(pid, cfg, tier, seed, workdir, already_broken):
     # preemption sweeps over the property's scenarios
     maxp = 120 if tier == "quick" else 200
     for sp in _scen_paths(cfg.get("scenarios", [])):
-        results += sweep.sweep(sp, os.path.join(workdir, "sweep"), maxp=maxp, two_level=(tier == "thorough"))
+        deep = any(os.path.basename(sp).startswith(x + "_") for x in cfg.get("deep", [])) or tier == "thorough"
+        results += sweep.sweep(sp, os.path.join(workdir, "sweep"), maxp=maxp, two_level=True, three_level=deep)
     if cfg.get("freeze"):
         for sp in _scen_paths(cfg.get("scenarios", []))[:4 if tier == "quick" else 99]:
             results += sweep.freeze_sweep(sp, os.path.join(workdir, "freeze"),
@@ -123,7 +124,7 @@ def run(pid, cfg, tier, seed, workdir, already_broken):
         for sp in _scen_paths(cfg.get("scenarios", [])):
             if time.time() - t1 > budget:
                 break
-            extra += sweep.sweep(sp, os.path.join(workdir, "sweep2"), maxp=60, two_level=True)
+            extra += sweep.sweep(sp, os.path.join(workdir, "sweep2"), maxp=60, two_level=True, three_level=True)
             if cfg.get("freeze"):
                 extra += sweep.freeze_sweep(sp, os.path.join(workdir, "freeze2"), maxp=40, maxq=70)
             mine = [m for m in _mine(extra, pid) if m[0][3] is None]
